@@ -234,6 +234,14 @@ PROBE = (b"procedure Foo;\nbegin\n  if SomeCondition and AnotherCondition or Yet
          b"    CallSomething(FirstArgument, SecondArgument, ThirdArgument, FourthArgument);\n  end;\nend;\n")
 
 
+def toml_bytes(src):
+    """the bytes of a configuration file for a source (an `unreadable` one is not valid UTF-8)"""
+    t = toml_of(src).encode()
+    if src["defect"] == "unreadable":
+        return [b"# caf\xe9 style\n" + t, b"\xff\xfe" + t.decode().encode("utf-16-le")][(src.get("wrap_column", 0) + src.get("use_tabs", 0)) % 2]
+    return t
+
+
 def toml_of(src):
     lines = []
     for o, vals in OPT_VALUES.items():
@@ -278,17 +286,18 @@ def run_config_scenario(idx, sc):
             if src["defect"] == "is_dir":
                 os.makedirs(os.path.join(d, "pasfmt.toml"))
             elif src["defect"] != "absent":
-                with open(os.path.join(d, "pasfmt.toml"), "w") as fh:
-                    fh.write(toml_of(src))
+                with open(os.path.join(d, "pasfmt.toml"), "wb") as fh:
+                    fh.write(toml_bytes(src))
         cwd = dirs[-1]
         probe = os.path.join(cwd, "probe.pas")
         with open(probe, "wb") as fh:
             fh.write(PROBE)
         args = []
         if sc["cfgArg"] == "file":
-            p = os.path.join(root, "custom.toml")
-            with open(p, "w") as fh:
-                fh.write(toml_of(sc["argSource"]))
+            # (the name of an explicitly given file is of no consequence)
+            p = os.path.join(root, ["custom.toml", "team-style.cfg", "pasfmt.toml.shared", ".pasfmt", "style", "Custom.TOML"][idx % 6])
+            with open(p, "wb") as fh:
+                fh.write(toml_bytes(sc["argSource"]))
             args += ["--config-file", p]
         elif sc["cfgArg"] == "missing":
             args += ["--config-file", os.path.join(root, "does_not_exist.toml")]
@@ -495,6 +504,57 @@ def run_unencodable_scenario(idx, sc):
 
 # ------------------------------------------------------------------------------------------------ C18 batches
 
+def run_write_fault_scenario(idx, sc, texts):
+    """sc: {threads, seed}: a batch in which some results cannot be written (a file-size limit makes writes beyond 1 KiB fail):
+    the status must be non-zero, and every file whose result fits must be formatted as when formatted alone"""
+    root = tempfile.mkdtemp(prefix=f"w{idx}_", dir=CLI_ROOT)
+    problems = []
+    try:
+        rnd = random.Random(sc["seed"])
+        d = os.path.join(root, "src")
+        os.makedirs(d)
+        small, big = {}, {}
+        for k in range(6):
+            t = rnd.choice([x for x in texts if len(x) < 300] or texts)
+            inp = t.encode().replace(b";", b" ;  ") + b"\n\n"
+            rc0, f = oracle(inp)
+            if rc0 != 0 or len(f) > 900 or f == inp:
+                continue
+            nm = f"s{k}.pas"
+            small[nm] = (inp, f)
+        for k in range(3):
+            t = "\n".join(rnd.choice(texts) for _ in range(30))
+            rc0, f = oracle(t.encode())
+            if rc0 != 0 or not (1500 < len(f) < 7000):
+                continue
+            # the input is longer than the result, so that shortening the file afterwards cannot fail
+            inp = f.replace(b"\n", b"\n\n\n   ") + b"\n" * 50
+            rc1, f1 = oracle(inp)
+            if rc1 != 0 or not (1500 < len(f1) < len(inp)):
+                continue
+            big[f"b{k}.pas"] = (inp, f1)
+        if len(small) < 2 or not big:
+            return [], True
+        names = list(small) + list(big)
+        rnd.shuffle(names)
+        for nm in names:
+            with open(os.path.join(d, nm), "wb") as fh:
+                fh.write((small.get(nm) or big.get(nm))[0])
+        e = dict(os.environ); e.pop("PASFMT_VERIF_TRACE", None); e["RAYON_NUM_THREADS"] = str(sc["threads"])
+        cmd = "trap '' XFSZ; ulimit -f 1; exec \"$0\" \"$@\""
+        r = subprocess.run(["bash", "-c", cmd, PASFMT] + [os.path.join(d, nm) for nm in names], cwd=root, stdout=subprocess.PIPE, stderr=subprocess.PIPE, env=e, timeout=120)
+        what = f"file-size limit 1 KiB, small={sorted(small)} big={sorted(big)} threads={sc['threads']}"
+        if r.returncode == 0:
+            problems.append({"clause": "exit_status", "detail": f"exit status 0 although the results of {sorted(big)} cannot be written ({what}); stderr {r.stderr[-200:].decode(errors='replace')}"})
+        for nm, (inp, f) in small.items():
+            now = open(os.path.join(d, nm), "rb").read()
+            if now != f:
+                problems.append({"clause": "batch_equals_solo", "detail": f"{nm}: holds {len(now)} bytes, alone it gives {len(f)} ({what})"})
+        return problems, False
+    finally:
+        shutil.rmtree(root, ignore_errors=True)
+
+
 def run_batch_scenario(idx, sc, texts):
     """sc: {n, threads, fail: [kinds], seed}: a directory of files is formatted in one invocation; every file must end
     up as when formatted alone; returns (problems, skipped, trace_events)"""
@@ -546,7 +606,23 @@ def run_batch_scenario(idx, sc, texts):
         trace = os.path.join(root, "trace.ndjson")
         env = {"RAYON_NUM_THREADS": str(sc["threads"]), "PASFMT_VERIF_TRACE": trace}
         mode_args = ["--mode", "stdout"] if sc.get("mode") == "stdout" else []
-        rc, out, err = run_bin(cfg_args + mode_args + (paths if sc.get("explicit", True) else [d]), root, env=env)
+        # a directory argument followed by explicit paths inside it: a file the walk does not pick up (other extension) and,
+        # now and then, a missing one
+        extra_args = []
+        if sc.get("extra") and not mode_args:
+            t = rnd.choice(texts)
+            inc = os.path.join(d, "inc")
+            os.makedirs(inc, exist_ok=True)
+            nm = "inc/defs.inc"
+            files[nm] = (t + "\n").encode()
+            with open(os.path.join(d, nm), "wb") as fh:
+                fh.write(files[nm])
+            extra_args.append(os.path.join(d, nm))
+            if sc["extra"] == "missing":
+                files["inc/gone.pas"] = None
+                fails.add("inc/gone.pas")
+                extra_args.append(os.path.join(d, "inc/gone.pas"))
+        rc, out, err = run_bin(cfg_args + mode_args + (paths if sc.get("explicit", True) else [d]) + extra_args, root, env=env)
         what = f"n={n} threads={sc['threads']} failing={sorted(fails)}" + (" mode=stdout" if mode_args else "") + (f" cfg={sc['cfg']}" if cfg_args else "")
         if (rc != 0) != bool(fails):
             problems.append({"clause": "exit_status", "detail": f"exit status {rc} but the failing files are {sorted(fails)} ({what}); stderr {err[-300:].decode(errors='replace')}"})
@@ -591,6 +667,7 @@ def run_batch_scenario(idx, sc, texts):
             solo_dir = os.path.join(root, "solo")
             os.makedirs(solo_dir, exist_ok=True)
             sp = os.path.join(solo_dir, nm)
+            os.makedirs(os.path.dirname(sp), exist_ok=True)
             with open(sp, "wb") as fh:
                 fh.write(body)
             rc1, _, e1 = run_bin(cfg_args + [sp], root, env={"RAYON_NUM_THREADS": "1"})
